@@ -1,7 +1,7 @@
 (* Proofs about Model/Sparse.v (Elias-Fano sparse vector). *)
 From Coq Require Import NArith List Lia ZArith Bool.
 Require Import SDS.Model.Mach SDS.Model.Bits SDS.Model.Raw SDS.Model.IntVec SDS.Model.BitVec SDS.Model.Sparse.
-Require Import SDS.Spec.BitSeq SDS.Spec.ValSeq SDS.Proofs.BitsProof SDS.Proofs.BVCommon SDS.gen.Consts.
+Require Import SDS.Spec.BitSeq SDS.Spec.ValSeq SDS.Proofs.BitsProof SDS.Proofs.BVCommon SDS.Proofs.SparseSeq SDS.gen.Consts.
 Import ListNotations.
 Open Scope N_scope.
 Require Import ZifyBool ZifyN ZifyNat.
@@ -47,3 +47,497 @@ Qed.
 
 Lemma get_buckets_too_wide universe w : 64 < w -> get_buckets universe w = Panic PIndex.
 Proof. intros Hw. unfold get_buckets. rewrite low_set_panics by lia. reflexivity. Qed.
+
+(* ---------------------------------------------------------------- machine arithmetic that does not overflow *)
+
+Lemma uadd_ok md a b : a + b < 2 ^ 64 -> uadd md a b = Ok (a + b).
+Proof. intros H. unfold uadd. replace (a + b <? 2 ^ 64) with true by lia. reflexivity. Qed.
+Lemma usub_ok md a b : b <= a -> usub md a b = Ok (a - b).
+Proof. intros H. unfold usub. replace (b <=? a) with true by lia. reflexivity. Qed.
+Lemma ushr_ok md a k : k < 64 -> ushr md a k = Ok (a / 2 ^ k).
+Proof. intros H. unfold ushr. replace (k <? 64) with true by lia. rewrite N.shiftr_div_pow2. reflexivity. Qed.
+Lemma ushl_ok md a k : k < 64 -> a * 2 ^ k < 2 ^ 64 -> ushl md a k = Ok (a * 2 ^ k).
+Proof.
+  intros Hk H. unfold ushl. replace (k <? 64) with true by lia.
+  rewrite N.shiftl_mul_pow2, N.mod_small by exact H. reflexivity.
+Qed.
+
+Lemma split_w_ok md w i : w <= 63 -> split_w md w i = Ok (i / 2 ^ w, i mod 2 ^ w).
+Proof.
+  intros Hw. unfold split_w. rewrite ushr_ok by lia. cbn [bind].
+  rewrite low_set_unchecked_ok by lia. cbn [bind]. rewrite land_ones_mod. reflexivity.
+Qed.
+
+(* division by a positive (variable) divisor *)
+Lemma div_lt_iff a b P : 0 < P -> (a / P < b <-> a < b * P).
+Proof.
+  intros HP. pose proof (N.div_mod a P ltac:(lia)) as Hdm. pose proof (N.mod_lt a P ltac:(lia)) as Hm.
+  split; intros H; nia.
+Qed.
+Lemma div_le_iff a b P : 0 < P -> (a / P <= b <-> a < (b + 1) * P).
+Proof. intros HP. rewrite <- div_lt_iff by exact HP. lia. Qed.
+Lemma div_mod_eq a P : 0 < P -> a = a / P * P + a mod P.
+Proof. intros HP. pose proof (N.div_mod a P ltac:(lia)). lia. Qed.
+Lemma div_mono a b P : 0 < P -> a <= b -> a / P <= b / P.
+Proof. intros HP Hab. apply N.div_le_mono; lia. Qed.
+
+(* ---------------------------------------------------------------- the Elias-Fano code, abstractly *)
+
+(* position in the high part of the one that belongs to the i-th value *)
+Definition one_pos (Vs : list N) (w i : N) : N := nthd Vs i / 2 ^ w + i.
+
+(* H is the unary bucket code of Vs with nb buckets: |Vs| + nb bits, set exactly at the one positions *)
+Definition ef_high_ok (H : list bool) (Vs : list N) (w nb : N) : Prop :=
+  lenB H = lenN Vs + nb /\
+  (forall i, i < lenN Vs -> getb H (one_pos Vs w i) = Some true) /\
+  (forall p, p < lenB H -> (forall i, i < lenN Vs -> p <> one_pos Vs w i) -> getb H p = Some false).
+
+(* the low IntVector stores L *)
+Definition low_ok (v : intvec) (w : N) (L : list N) : Prop :=
+  ilen v = lenN L /\ iwidth v = w /\ forall i, i < lenN L -> iv_get v i = Ok (nthd L i).
+
+(* number of buckets *)
+Definition buckets_of (n w : N) : N := (n + 2 ^ w - 1) / 2 ^ w.
+(* number of values whose high part is <= b *)
+Definition cnt_le (Vs : list N) (w b : N) : N := vs_rank Vs ((b + 1) * 2 ^ w).
+
+Section Code.
+Variables (n w : N) (Vs : list N) (H : list bool).
+Hypothesis Hw : 1 <= w <= 63.
+Hypothesis Hsorted : sorted_le Vs.
+Hypothesis Hbound : bounded n Vs.
+Hypothesis HH : ef_high_ok H Vs w (buckets_of n w).
+
+Local Notation m := (lenN Vs).
+Local Notation nb := (buckets_of n w).
+Local Notation V := (nthd Vs).
+Local Notation op := (one_pos Vs w).
+Local Notation c := (cnt_le Vs w).
+
+Lemma P_pos : 0 < 2 ^ w.
+Proof. apply N.neq_0_lt_0, N.pow_nonzero. lia. Qed.
+
+Lemma nb_spec : n <= nb * 2 ^ w /\ (nb = 0 \/ (nb - 1) * 2 ^ w < n).
+Proof.
+  unfold nb, buckets_of. pose proof P_pos as HP. set (P := 2 ^ w) in *.
+  pose proof (N.div_mod (n + P - 1) P ltac:(lia)) as Hdm. pose proof (N.mod_lt (n + P - 1) P ltac:(lia)) as Hm.
+  set (q := (n + P - 1) / P) in *. split; [nia|]. destruct (N.eq_dec q 0); [left; lia|right; nia].
+Qed.
+
+Lemma hi_lt_nb i : i < m -> V i / 2 ^ w < nb.
+Proof.
+  intros Hi. apply div_lt_iff; [apply P_pos|]. pose proof (Hbound i Hi). pose proof nb_spec. lia.
+Qed.
+
+Lemma H_len : lenB H = m + nb.
+Proof. apply HH. Qed.
+
+Lemma op_lt_len i : i < m -> op i < lenB H.
+Proof. intros Hi. rewrite H_len. pose proof (hi_lt_nb i Hi). unfold one_pos in *. lia. Qed.
+
+Lemma hi_mono i j : i <= j -> j < m -> V i / 2 ^ w <= V j / 2 ^ w.
+Proof. intros Hij Hj. apply div_mono; [apply P_pos|]. apply Hsorted; assumption. Qed.
+
+Lemma op_mono i j : i < j -> j < m -> op i < op j.
+Proof. intros Hij Hj. pose proof (hi_mono i j ltac:(lia) Hj). unfold one_pos in *. lia. Qed.
+
+Lemma H_one i : i < m -> getb H (op i) = Some true.
+Proof. apply HH. Qed.
+
+(* the gap before the j-th one (j = m: the tail): every bit there is unset *)
+Lemma H_gap j p : j <= m -> (j = 0 \/ op (j - 1) < p) -> (j < m -> p < op j) -> p < lenB H ->
+  getb H p = Some false.
+Proof.
+  intros Hj Hlo Hhi Hp. apply HH; [exact Hp|]. intros i Hi Heq.
+  destruct (N.lt_ge_cases i j) as [Hij|Hij].
+  - destruct Hlo as [->|Hlo]; [lia|].
+    destruct (N.eq_dec i (j - 1)) as [->|Hne]; [lia|].
+    pose proof (op_mono i (j - 1) ltac:(lia) ltac:(lia)). lia.
+  - destruct (N.eq_dec i j) as [->|Hne]; [specialize (Hhi Hi); lia|].
+    pose proof (op_mono j i ltac:(lia) Hi). specialize (Hhi ltac:(lia)). lia.
+Qed.
+
+(* the number of ones before any position of the j-th gap, including its closing one position, is j *)
+Lemma H_rank_gap j : forall p, N.of_nat j <= m ->
+  (j = 0%nat \/ op (N.of_nat j - 1) < p) -> (N.of_nat j < m -> p <= op (N.of_nat j)) -> p <= lenB H ->
+  rank1 H p = N.of_nat j.
+Proof.
+  induction j as [|j IH]; intros p Hj Hlo Hhi Hp.
+  - rewrite (sq_rank1_gap H 0 p); [apply sq_rank1_0|lia|].
+    intros q Hq. apply (H_gap 0 q); [lia|left; reflexivity| |lia]. intros H0. specialize (Hhi H0). cbn in *. lia.
+  - destruct Hlo as [Hlo|Hlo]; [discriminate|].
+    replace (N.of_nat (S j) - 1) with (N.of_nat j) in Hlo by lia.
+    (* ones before op j: j; the bit at op j; then a gap up to p *)
+    assert (Hjm : N.of_nat j < m) by lia.
+    assert (Hr : rank1 H (op (N.of_nat j)) = N.of_nat j).
+    { apply IH; [lia| |lia|pose proof (op_lt_len _ Hjm); lia].
+      destruct j as [|j']; [left; reflexivity|right].
+      apply op_mono; lia. }
+    rewrite (sq_rank1_gap H (op (N.of_nat j) + 1) p); [|lia|].
+    + rewrite (sq_rank1_succ H _ true) by (apply H_one; exact Hjm). rewrite Hr. cbn [b2n]. lia.
+    + intros q Hq. apply (H_gap (N.of_nat (S j)) q); [lia| | |lia].
+      * right. replace (N.of_nat (S j) - 1) with (N.of_nat j) by lia. lia.
+      * intros Hlt. specialize (Hhi Hlt). lia.
+Qed.
+
+Lemma H_rank_op i : i < m -> rank1 H (op i) = i.
+Proof.
+  intros Hi. rewrite <- (N2Nat.id i) at 2. apply H_rank_gap; rewrite ?N2Nat.id; [lia| |lia|pose proof (op_lt_len i Hi); lia].
+  destruct (N.eq_dec i 0) as [->|Hne]; [left; reflexivity|right]. apply op_mono; lia.
+Qed.
+
+Lemma H_select1 i : i < m -> select1 H i = Some (op i).
+Proof. intros Hi. rewrite <- (H_rank_op i Hi) at 1. apply sq_select1_rank, H_one, Hi. Qed.
+
+(* counting by high part *)
+Lemma c_le_m b : c b <= m.
+Proof. apply vs_rank_le_len. Qed.
+Lemma c_lt i b : i < c b -> V i / 2 ^ w <= b.
+Proof. intros Hi. apply div_le_iff; [apply P_pos|]. apply (vs_rank_lt Vs _ i Hsorted Hi). Qed.
+Lemma c_ge i b : c b <= i -> i < m -> b < V i / 2 ^ w.
+Proof.
+  intros Hi Him. pose proof (vs_rank_ge Vs _ i Hsorted Hi Him) as Hge.
+  destruct (N.lt_ge_cases b (V i / 2 ^ w)) as [|Hc]; [assumption|].
+  apply div_le_iff in Hc; [lia|apply P_pos].
+Qed.
+Lemma c_mono b b' : b <= b' -> c b <= c b'.
+Proof.
+  intros Hb. destruct (N.le_gt_cases (c b) (c b')) as [|Hgt]; [assumption|exfalso].
+  assert (Hi : c b' < m) by (pose proof (c_le_m b); lia).
+  pose proof (c_lt (c b') b Hgt). pose proof (c_ge (c b') b' ltac:(lia) Hi). lia.
+Qed.
+
+(* the unset bit that closes bucket b sits at b + c b, in the gap before the one of value c b *)
+Lemma H_zero_gap b : b < nb ->
+  (c b = 0 \/ op (c b - 1) < b + c b) /\ (c b < m -> b + c b < op (c b)) /\ b + c b < lenB H.
+Proof.
+  intros Hb. pose proof (c_le_m b) as Hcm. split; [|split].
+  - destruct (N.eq_dec (c b) 0) as [->|Hne]; [left; reflexivity|right].
+    pose proof (c_lt (c b - 1) b ltac:(lia)). unfold one_pos. lia.
+  - intros Hlt. pose proof (c_ge (c b) b ltac:(lia) Hlt). unfold one_pos. lia.
+  - rewrite H_len. lia.
+Qed.
+
+Lemma H_zero b : b < nb -> getb H (b + c b) = Some false.
+Proof.
+  intros Hb. destruct (H_zero_gap b Hb) as [Hlo [Hhi Hlen]].
+  apply (H_gap (c b)); [apply c_le_m|exact Hlo|exact Hhi|exact Hlen].
+Qed.
+
+Lemma H_rank_zero b : b < nb -> rank1 H (b + c b) = c b.
+Proof.
+  intros Hb. destruct (H_zero_gap b Hb) as [Hlo [Hhi Hlen]]. pose proof (c_le_m b) as Hcm.
+  rewrite <- (N2Nat.id (c b)) at 2. apply H_rank_gap; rewrite ?N2Nat.id; [exact Hcm| | |lia].
+  - destruct Hlo as [Hz|Hlo]; [left; lia|right; exact Hlo].
+  - intros Hlt. specialize (Hhi Hlt). lia.
+Qed.
+
+Lemma H_select0 b : b < nb -> select0 H b = Some (b + c b).
+Proof.
+  intros Hb. pose proof (sq_select0_rank H (b + c b) (H_zero b Hb)) as Hs.
+  rewrite (H_rank_zero b Hb) in Hs. replace (b + c b - c b) with b in Hs by lia. exact Hs.
+Qed.
+
+End Code.
+
+(* ---------------------------------------------------------------- small facts about the embedded structures *)
+
+Lemma bits_of_words_length ws : length (bits_of_words ws) = (64 * length ws)%nat.
+Proof.
+  unfold bits_of_words. induction ws as [|x t IH]; cbn [flat_map length]; [reflexivity|].
+  rewrite app_length, wbits_length, IH. lia.
+Qed.
+
+Lemma bits_of_lenB len ws : len <= 64 * lenN ws -> lenB (bits_of len ws) = len.
+Proof.
+  intros Hl. unfold lenB, bits_of, lenN in *. rewrite firstn_length, bits_of_words_length. lia.
+Qed.
+
+Lemma raw_wf_room r : raw_wf r -> rlen r <= 64 * lenN (rdata r) /\ 64 * lenN (rdata r) < rlen r + 64.
+Proof. intros [Hl _]. rewrite Hl. lia. Qed.
+
+Lemma bv_repr_len b B : bv_repr b B -> lenB B = bv_len b /\ bv_len b < 2 ^ 64.
+Proof.
+  intros [Hwf [HB _]]. split.
+  - rewrite HB. apply bits_of_lenB. apply raw_wf_room, Hwf.
+  - apply Hwf.
+Qed.
+
+Lemma nthd_map f l i : i < lenN l -> nthd (map f l) i = f (nthd l i).
+Proof.
+  revert i. induction l as [|a t IH]; intros i Hi; [unfold lenN in Hi; cbn in Hi; lia|].
+  rewrite lenN_cons in Hi. cbn [map]. rewrite !nthd_cons. destruct (N.eqb_spec i 0); [reflexivity|]. apply IH. lia.
+Qed.
+Lemma lenN_map {A B} (f : A -> B) l : lenN (map f l) = lenN l.
+Proof. unfold lenN. rewrite map_length. reflexivity. Qed.
+
+(* ---------------------------------------------------------------- queries over an abstract well-formed vector *)
+
+(* sv represents the (multi)set Vs in the universe [0, n) with low width w, through the bit sequence H *)
+Definition sv_ok (sp : selpath) (md : mode) (sv : sparse) (n w : N) (Vs : list N) (H : list bool) : Prop :=
+  n < 2 ^ 64 /\ 1 <= w <= 63 /\ sorted_le Vs /\ bounded n Vs /\
+  sv_len sv = n /\
+  ef_high_ok H Vs w (buckets_of n w) /\
+  bv_select_ok sp md (sv_high sv) H /\
+  low_ok (sv_low sv) w (map (fun v => v mod 2 ^ w) Vs).
+
+Section Queries.
+Variables (sp : selpath) (md : mode) (sv : sparse) (n w : N) (Vs : list N) (H : list bool).
+Hypothesis Hok : sv_ok sp md sv n w Vs H.
+
+Local Notation m := (lenN Vs).
+Local Notation nb := (buckets_of n w).
+Local Notation V := (nthd Vs).
+Local Notation op := (one_pos Vs w).
+Local Notation c := (cnt_le Vs w).
+Local Notation hb := (sv_high sv).
+
+Let Hn : n < 2 ^ 64. Proof. apply Hok. Qed.
+Let Hw : 1 <= w <= 63. Proof. apply Hok. Qed.
+Let Hsorted : sorted_le Vs. Proof. apply Hok. Qed.
+Let Hbound : bounded n Vs. Proof. apply Hok. Qed.
+Let Hlen : sv_len sv = n. Proof. apply Hok. Qed.
+Let HH : ef_high_ok H Vs w nb. Proof. apply Hok. Qed.
+Let Hhigh : bv_select_ok sp md hb H. Proof. apply Hok. Qed.
+Let Hlow : low_ok (sv_low sv) w (map (fun v => v mod 2 ^ w) Vs). Proof. apply Hok. Qed.
+
+Lemma q_P_pos : 0 < 2 ^ w. Proof. exact (P_pos w Hw). Qed.
+
+Lemma q_hb_len : bv_len hb = m + nb /\ m + nb < 2 ^ 64.
+Proof.
+  destruct Hhigh as [Hr _]. destruct (bv_repr_len _ _ Hr) as [Hl Hlt].
+  rewrite <- Hl, (H_len n w Vs H HH). split; [reflexivity|]. rewrite <- Hl in Hlt.
+  rewrite (H_len n w Vs H HH) in Hlt. exact Hlt.
+Qed.
+
+Lemma q_lenB : lenB H = m + nb. Proof. exact (H_len n w Vs H HH). Qed.
+
+Lemma q_get p x : getb H p = Some x -> bv_get hb p = Ok x.
+Proof.
+  intros Hg. destruct Hhigh as [_ [Hget _]]. pose proof (sq_getb_lt _ _ _ Hg) as Hlt.
+  destruct (Hget p) as [y [Hy1 Hy2]]; [rewrite (proj1 q_hb_len), <- q_lenB; exact Hlt|].
+  rewrite Hy1. congruence.
+Qed.
+
+Lemma q_sel1 i : i < m -> bv_select_t sp md Identity hb i = Ok (Some (op i)).
+Proof.
+  intros Hi. destruct Hhigh as [_ [_ [Hs _]]]. rewrite Hs by (pose proof q_hb_len; lia).
+  rewrite (H_select1 n w Vs H Hw Hsorted Hbound HH i Hi). reflexivity.
+Qed.
+
+Lemma q_sel0 b : b < nb -> bv_select_t sp md Complement hb b = Ok (Some (b + c b)).
+Proof.
+  intros Hb. destruct Hhigh as [_ [_ [_ Hs]]]. rewrite Hs by (pose proof q_hb_len; lia).
+  rewrite (H_select0 n w Vs H Hw Hsorted Hbound HH b Hb). reflexivity.
+Qed.
+
+Lemma q_ones : sv_count_ones sv = m.
+Proof. unfold sv_count_ones. destruct Hlow as [Hl _]. rewrite Hl, lenN_map. reflexivity. Qed.
+Lemma q_width : sv_width sv = w.
+Proof. unfold sv_width. apply Hlow. Qed.
+Lemma q_low j : j < m -> iv_get (sv_low sv) j = Ok (V j mod 2 ^ w).
+Proof.
+  intros Hj. destruct Hlow as [_ [_ Hg]]. rewrite Hg by (rewrite lenN_map; exact Hj).
+  rewrite nthd_map by exact Hj. reflexivity.
+Qed.
+
+Lemma q_fuel : m + nb + 63 < 64 * N.of_nat (sv_fuel sv).
+Proof.
+  unfold sv_fuel. destruct Hhigh as [[Hwf _] _]. destruct (raw_wf_room _ Hwf) as [Hr _].
+  pose proof (proj1 q_hb_len) as Hl. unfold bv_len in Hl. unfold lenN in Hr. lia.
+Qed.
+
+Lemma q_V_lt j : j < m -> V j < n. Proof. apply Hbound. Qed.
+
+(* split of an index *)
+Lemma q_split i : sv_split md sv i = Ok (i / 2 ^ w, i mod 2 ^ w).
+Proof. unfold sv_split. rewrite q_width. apply split_w_ok. lia. Qed.
+
+Lemma q_hp_lt i : i < n -> i / 2 ^ w < nb.
+Proof.
+  intros Hi. apply div_lt_iff; [apply q_P_pos|]. pose proof (nb_spec n w Hw). lia.
+Qed.
+
+(* combine at the position of the j-th value *)
+Lemma q_combine j : j < m -> sv_combine md sv (op j, j) = Ok (j, V j).
+Proof.
+  intros Hj. unfold sv_combine. cbn [fst snd]. unfold one_pos.
+  pose proof q_P_pos as HP. pose proof (q_V_lt j Hj) as HV. pose proof (div_mod_eq (V j) (2 ^ w) HP) as Hdm.
+  rewrite q_width, (q_low j Hj).
+  set (q := V j / 2 ^ w) in *. set (r := V j mod 2 ^ w) in *.
+  rewrite usub_ok by lia. cbn [bind]. replace (q + j - j) with q by lia.
+  rewrite ushl_ok by lia. cbn [bind].
+  rewrite uadd_ok by lia. cbn [bind]. do 2 f_equal. lia.
+Qed.
+
+Lemma q_pos j : j < m -> sv_pos sp md sv j = Ok (op j, j).
+Proof. intros Hj. unfold sv_pos. rewrite (q_sel1 j Hj). reflexivity. Qed.
+
+(* ---- select *)
+Lemma q_select r : sv_select sp md sv r = Ok (vs_select Vs r).
+Proof.
+  unfold sv_select, vs_select. rewrite q_ones, nthN_nth_opt.
+  destruct (N.leb_spec m r) as [Hr|Hr].
+  - replace (nthN Vs r) with (@None N); [reflexivity|]. symmetry. apply nthN_None_ge. exact Hr.
+  - rewrite (q_pos r Hr). cbn [bind]. rewrite (q_combine r Hr). cbn [bind snd].
+    rewrite (nthd_some Vs r Hr). reflexivity.
+Qed.
+
+(* lower_bound / upper_bound of a high part below the number of buckets *)
+Definition c_prev (b : N) : N := if b =? 0 then 0 else c (b - 1).
+
+Lemma q_lower_bound b : b < nb -> sv_lower_bound sp md sv b = Ok (b + c_prev b, c_prev b).
+Proof.
+  intros Hb. unfold sv_lower_bound, c_prev. destruct (N.eqb_spec b 0) as [->|Hb0]; [reflexivity|].
+  rewrite (q_sel0 (b - 1)) by lia. cbn [bind opt_unwrap].
+  pose proof (c_le_m w Vs (b - 1)) as Hc. pose proof q_hb_len.
+  rewrite uadd_ok by lia. cbn [bind]. rewrite usub_ok by lia. cbn [bind]. do 2 f_equal; lia.
+Qed.
+
+Lemma q_upper_bound b : b < nb -> sv_upper_bound sp md sv b = Ok (b + c b, c b).
+Proof.
+  intros Hb. unfold sv_upper_bound. rewrite (q_sel0 b Hb). cbn [bind opt_unwrap].
+  rewrite usub_ok by lia. cbn [bind]. do 2 f_equal. lia.
+Qed.
+
+(* shorthand instances of the code lemmas *)
+Lemma q_op_mono i j : i < j -> j < m -> op i < op j.
+Proof. apply (op_mono w Vs Hw Hsorted). Qed.
+Lemma q_op_lt_len i : i < m -> op i < lenB H.
+Proof. apply (op_lt_len n w Vs H Hw Hbound HH). Qed.
+Lemma q_one i : i < m -> bv_get hb (op i) = Ok true.
+Proof. intros Hi. apply q_get. apply (H_one n w Vs H HH i Hi). Qed.
+Lemma q_gap j p : j <= m -> (j = 0 \/ op (j - 1) < p) -> (j < m -> p < op j) -> p < lenB H -> bv_get hb p = Ok false.
+Proof. intros. apply q_get. apply (H_gap n w Vs H Hw Hsorted HH j p); assumption. Qed.
+Lemma q_len_lt : lenB H < 2 ^ 64.
+Proof. rewrite q_lenB. apply q_hb_len. Qed.
+
+(* ---- the scans to the next / previous set bit of high *)
+
+Lemma q_fwd_step j h : j < m -> (j = 0 \/ op (j - 1) < h) -> h <= op j ->
+  fwd_step md sv h = Ok (if h =? op j then Done h else Continue (h + 1)).
+Proof.
+  intros Hj Hlo Hhi. unfold fwd_step. pose proof (q_op_lt_len j Hj) as Hl. pose proof q_len_lt as Hl2.
+  destruct (N.eqb_spec h (op j)) as [->|Hne].
+  - rewrite (q_one j Hj). reflexivity.
+  - rewrite (q_gap j h) by (try assumption; lia). cbn [bind]. rewrite uadd_ok by lia. reflexivity.
+Qed.
+
+Lemma q_fwd_loop j p : j < m -> (j = 0 \/ op (j - 1) < p) -> p <= op j ->
+  run_loop (sv_fuel sv) (fwd_step md sv) p = Ok (op j).
+Proof.
+  intros Hj Hlo Hhi.
+  destruct (run_loop_inv (fwd_step md sv)
+              (fun h k => (j = 0 \/ op (j - 1) < h) /\ h <= op j /\ k = op j - h)
+              (fun r => r = op j)) with (blocks := sv_fuel sv) (s := p) (k := op j - p) as [r [Hr Hp]].
+  - intros h k [Hlo' [Hhi' Hk]]. rewrite (q_fwd_step j h Hj Hlo' Hhi').
+    destruct (N.eqb_spec h (op j)) as [Heq|Hne].
+    + left. exists h. split; [reflexivity|exact Heq].
+    + right. exists (h + 1), (op j - (h + 1)). split; [reflexivity|]. split; [|lia].
+      split; [destruct Hlo'; [left; assumption|right; lia]|split; [lia|reflexivity]].
+  - split; [exact Hlo|split; [exact Hhi|reflexivity]].
+  - pose proof (q_op_lt_len j Hj). pose proof q_fuel. pose proof q_lenB. lia.
+  - rewrite Hr, Hp. reflexivity.
+Qed.
+
+Lemma q_bwd_step k h : 1 <= k -> k <= m -> op (k - 1) <= h -> (k < m -> h < op k) -> h < lenB H ->
+  bwd_step md sv h = Ok (if h =? op (k - 1) then Done h else Continue (h - 1)).
+Proof.
+  intros Hk1 Hkm Hlo Hhi Hl. unfold bwd_step.
+  destruct (N.eqb_spec h (op (k - 1))) as [->|Hne].
+  - rewrite (q_one (k - 1)) by lia. reflexivity.
+  - rewrite (q_gap k h) by (try assumption; right; lia). cbn [bind]. rewrite usub_ok by lia. reflexivity.
+Qed.
+
+Lemma q_bwd_loop k q : 1 <= k -> k <= m -> op (k - 1) <= q -> (k < m -> q < op k) -> q < lenB H ->
+  run_loop (sv_fuel sv) (bwd_step md sv) q = Ok (op (k - 1)).
+Proof.
+  intros Hk1 Hkm Hlo Hhi Hl.
+  destruct (run_loop_inv (bwd_step md sv)
+              (fun h d => op (k - 1) <= h /\ h <= q /\ d = h)
+              (fun r => r = op (k - 1))) with (blocks := sv_fuel sv) (s := q) (k := q) as [r [Hr Hp]].
+  - intros h d [Hlo' [Hhi' Hd]]. rewrite (q_bwd_step k h Hk1 Hkm Hlo') by (try lia; intros Hlt; specialize (Hhi Hlt); lia).
+    destruct (N.eqb_spec h (op (k - 1))) as [Heq|Hne].
+    + left. exists h. split; [reflexivity|exact Heq].
+    + right. exists (h - 1), (h - 1). split; [reflexivity|]. split; [|lia]. split; [lia|split; [lia|reflexivity]].
+  - split; [exact Hlo|split; [lia|reflexivity]].
+  - pose proof q_fuel. pose proof q_lenB. lia.
+  - rewrite Hr, Hp. reflexivity.
+Qed.
+
+(* ---- the set-bit iterator as an index range [j, k) of the values *)
+
+Definition it_repr (it : sv_iter) (j k : N) : Prop :=
+  snd (it_next it) = j /\ snd (it_limit it) = k /\ k <= m /\
+  (j < k -> (j = 0 \/ op (j - 1) < fst (it_next it)) /\ fst (it_next it) <= op j) /\
+  (j < k -> op (k - 1) < fst (it_limit it) /\ (k < m -> fst (it_limit it) <= op k) /\ fst (it_limit it) <= lenB H).
+
+Lemma q_it_next it j k : it_repr it j k -> j < k ->
+  exists it', it_next_f md sv it = Ok (it', Some (j, V j)) /\ it_repr it' (j + 1) k.
+Proof.
+  intros [Hn1 [Hl1 [Hkm [Hnx Hlm]]]] Hjk. destruct (Hnx Hjk) as [Hlo Hhi]. destruct (Hlm Hjk) as [Hq1 [Hq2 Hq3]].
+  unfold it_next_f. rewrite Hn1, Hl1. replace (k <=? j) with false by lia.
+  rewrite (q_fwd_loop j _ ltac:(lia) Hlo Hhi). cbn [bind].
+  rewrite (q_combine j) by lia. cbn [bind].
+  pose proof (q_op_lt_len j ltac:(lia)). pose proof q_len_lt. pose proof q_hb_len.
+  rewrite uadd_ok by lia. cbn [bind]. rewrite uadd_ok by lia. cbn [bind].
+  eexists. split; [reflexivity|]. unfold it_repr. cbn [it_next it_limit fst snd].
+  split; [reflexivity|]. split; [exact Hl1|]. split; [exact Hkm|]. split.
+  - intros Hlt. split; [right; replace (j + 1 - 1) with j by lia; lia|].
+    pose proof (q_op_mono j (j + 1) ltac:(lia) ltac:(lia)). lia.
+  - intros _. auto.
+Qed.
+
+Lemma q_it_next_none it j k : it_repr it j k -> k <= j -> it_next_f md sv it = Ok (it, None).
+Proof.
+  intros [Hn1 [Hl1 _]] Hkj. unfold it_next_f. rewrite Hn1, Hl1. replace (k <=? j) with true by lia. reflexivity.
+Qed.
+
+Lemma q_it_back it j k : it_repr it j k -> j < k ->
+  exists it', it_next_back md sv it = Ok (it', Some (k - 1, V (k - 1))) /\ it_repr it' j (k - 1).
+Proof.
+  intros [Hn1 [Hl1 [Hkm [Hnx Hlm]]]] Hjk. destruct (Hnx Hjk) as [Hlo Hhi]. destruct (Hlm Hjk) as [Hq1 [Hq2 Hq3]].
+  unfold it_next_back. rewrite Hn1, Hl1. replace (k <=? j) with false by lia.
+  rewrite usub_ok by lia. cbn [bind]. rewrite usub_ok by lia. cbn [bind].
+  rewrite (q_bwd_loop k) by (try lia; intros Hlt; specialize (Hq2 Hlt); lia). cbn [bind].
+  rewrite (q_combine (k - 1)) by lia. cbn [bind].
+  eexists. split; [reflexivity|]. unfold it_repr. cbn [it_next it_limit fst snd].
+  split; [exact Hn1|]. split; [reflexivity|]. split; [lia|]. split.
+  - intros Hlt. apply Hnx. lia.
+  - intros Hlt. split; [apply q_op_mono; lia|]. split; [intros _; replace (k - 1 - 1 + 1) with (k - 1) by lia; lia|].
+    pose proof (q_op_lt_len (k - 1) ltac:(lia)). lia.
+Qed.
+
+Lemma q_it_back_none it j k : it_repr it j k -> k <= j -> it_next_back md sv it = Ok (it, None).
+Proof.
+  intros [Hn1 [Hl1 _]] Hkj. unfold it_next_back. rewrite Hn1, Hl1. replace (k <=? j) with true by lia. reflexivity.
+Qed.
+
+(* constructors of iterators *)
+Lemma q_full_limit : it_full_limit sv = (lenB H, m).
+Proof. unfold it_full_limit. rewrite (proj1 q_hb_len), q_lenB. f_equal. apply q_ones. Qed.
+
+Lemma q_it_at j p : j <= m -> (j < m -> (j = 0 \/ op (j - 1) < p) /\ p <= op j) ->
+  it_repr (mkit (p, j) (it_full_limit sv)) j m.
+Proof.
+  intros Hj Hp. rewrite q_full_limit. unfold it_repr. cbn [it_next it_limit fst snd].
+  split; [reflexivity|]. split; [reflexivity|]. split; [lia|]. split; [exact Hp|].
+  intros Hlt. split; [apply q_op_lt_len; lia|]. split; [lia|lia].
+Qed.
+
+Lemma q_it_empty : it_repr (it_empty sv) m m.
+Proof. unfold it_empty. rewrite q_full_limit. unfold it_repr. cbn [it_next it_limit fst snd]. repeat split; lia. Qed.
+
+Lemma q_one_iter : it_repr (sv_one_iter sv) 0 m.
+Proof. unfold sv_one_iter. apply q_it_at; [lia|]. intros _. split; [left; reflexivity|lia]. Qed.
+
+Lemma q_select_iter r : exists it, sv_select_iter sp md sv r = Ok it /\ it_repr it (N.min r m) m.
+Proof.
+  unfold sv_select_iter. rewrite q_ones. destruct (N.leb_spec m r) as [Hr|Hr].
+  - exists (it_empty sv). split; [reflexivity|]. replace (N.min r m) with m by lia. apply q_it_empty.
+  - rewrite (q_pos r Hr). cbn [bind]. eexists. split; [reflexivity|]. replace (N.min r m) with r by lia.
+    apply q_it_at; [lia|]. intros _. split; [|lia].
+    destruct (N.eq_dec r 0) as [->|Hne]; [left; reflexivity|right]. apply q_op_mono; lia.
+Qed.
+
+End Queries.
